@@ -598,6 +598,11 @@ def late_work_race(ctx, k):
     kind = 'sync' if k % 2 == 0 else 'async'
     variant = 'frame_during_teardown' if kind == 'sync' or \
         rng.random() < 0.5 else 'emit_callback_vs_queued_loss'
+    if rng.random() < 0.35:
+        # one polling POST may carry an engine.io CLOSE followed by further
+        # packets: engine.io dispatches them although the transport has
+        # just ended
+        variant = 'frames_after_close_in_one_payload'
     w = {'part': 'late_work_race', 'case_index': k, 'kind': kind,
          'variant': variant}
     state = {'armed': False}
@@ -632,7 +637,28 @@ def late_work_race(ctx, k):
         t.connect('/')
         sid = t.sids['/']
         state['armed'] = True
-        if kind == 'async' and variant == 'frame_during_teardown':
+        if variant == 'frames_after_close_in_one_payload':
+            later = rng.sample([header, RR.encode(RR.CONNECT, '/', None,
+                                                  None)[0],
+                                RR.encode(RR.CONNECT, '/a', None, None)[0],
+                                RR.encode(RR.EVENT, '/', 3, ['ev', 1])[0]],
+                               rng.randint(1, 3))
+            w['frames_after_close'] = later
+            if kind == 'async':
+                async def go():
+                    await t.socket.receive(eio_packet.Packet(
+                        eio_packet.CLOSE))
+                    for f in later:
+                        await t.socket.receive(eio_packet.Packet(
+                            eio_packet.MESSAGE, f))
+                d.run(go())
+            else:
+                t.socket.receive(eio_packet.Packet(eio_packet.CLOSE))
+                for f in later:
+                    t.socket.receive(eio_packet.Packet(eio_packet.MESSAGE,
+                                                       f))
+                d.join()
+        elif kind == 'async' and variant == 'frame_during_teardown':
             async def go():
                 state['entered'] = asyncio.Event()
                 state['release'] = asyncio.Event()
@@ -690,7 +716,16 @@ def late_work_race(ctx, k):
                       for ns, rooms in m.rooms.items()}})
         if size[0] != base[0]:
             w['graph_growth'] = G.diff(base[1], size[1])
-            ctx.violation(None, '%s: after the client has gone the objects '
+            key = None
+            if variant == 'frames_after_close_in_one_payload' and \
+                    header in w.get('frames_after_close', []) and \
+                    w['internals']['binary_packet_keys'] == 1 and \
+                    not w['internals']['callbacks'] and \
+                    not w['internals']['rooms'] and \
+                    not w['internals']['environ_keys']:
+                # the known mechanism: only the half-received packet stays
+                key = 'partial-packet-stored-after-transport-ended'
+            ctx.violation(key, '%s: after the client has gone the objects '
                           'reachable from the server grew from %d to %d '
                           '(callbacks %r, half-received packets %d)' % (
                               variant.replace('_', ' '), base[0], size[0],
